@@ -286,7 +286,7 @@ def _fake_hpc_command(cmd, output=None, **kw):
             output["stderr"] = "slurm_load_jobs error: Socket timed out on send/recv operation"
             vc.emit("squeue", ok=False, active=[])
             return 1
-        lines = [f"{i:<20}{b['state']:<20}" for i, b in vc.hpc.items() if b["state"] in ("PENDING", "RUNNING")]
+        lines = [f"{i:<20}{b['state']:<20}" for i, b in vc.hpc.items() if b["state"] in ("PENDING", "RUNNING", "SUSPENDED")]
         output["stdout"] = "\n".join(lines) + ("\n" if lines else "")
         vc.emit("squeue", ok=True, active=vc.active_ids())
         return 0
@@ -294,7 +294,7 @@ def _fake_hpc_command(cmd, output=None, **kw):
         i = cmd.split()[1]
         vc.yield_point()
         was = vc.hpc.get(i, {}).get("state")
-        if was in ("PENDING", "RUNNING"):
+        if was in ("PENDING", "RUNNING", "SUSPENDED"):
             vc.hpc[i]["state"] = "CANCELLED"
             vc.kill_batch(i)
         vc.emit("scancel", id=i, was=was)
@@ -695,7 +695,7 @@ class VirtualCluster:
         return sorted(names)
 
     def active_ids(self):
-        return sorted(i for i, b in self.hpc.items() if b["state"] in ("PENDING", "RUNNING"))
+        return sorted(i for i, b in self.hpc.items() if b["state"] in ("PENDING", "RUNNING", "SUSPENDED"))
 
     def describe_batch(self, script):
         """what a submission script would run: parsed back from the real files"""
@@ -773,7 +773,7 @@ class VirtualCluster:
             ev["error"] = type(a.exc).__name__
             ev["msg"] = str(a.exc)[:160]
         self.trace.append(ev)
-        if p.kind == "node" and p.batch in self.hpc and self.hpc[p.batch]["state"] == "RUNNING":
+        if p.kind == "node" and p.batch in self.hpc and self.hpc[p.batch]["state"] in ("RUNNING", "SUSPENDED"):
             self.hpc[p.batch]["state"] = "GONE"
             self.trace.append({"k": "batch_end", "p": 0, "id": p.batch})
 
@@ -807,6 +807,8 @@ class VirtualCluster:
 
     def _runnable(self, a):
         if a.done or a.killed:
+            return False
+        if a.stack[0].kind == "node" and self.hpc.get(a.stack[0].batch, {}).get("state") == "SUSPENDED":
             return False
         if a.waiting_lock is not None and os.path.exists(a.waiting_lock):
             holder = self.locks.get(a.waiting_lock)
@@ -877,6 +879,12 @@ class VirtualCluster:
             same = [c for c in runs if c[1] is self.cur]
             if same and self.rng.random() < 0.85:
                 return same[0]
+        if s == "gap_hunter" and self.trace:
+            last = self.trace[-1]
+            if last.get("k") in ("release", "acquire") and str(last.get("lock", "")).startswith("results_batch") and "node" not in last:
+                nodes = [c for c in runs if c[1].stack[0].kind == "node"] + [c for c in ch if c[0].startswith("finish:")]
+                if nodes and self.rng.random() < 0.8:
+                    return self.rng.choice(nodes)
         if s == "slow_finish":
             other = [c for c in ch if not c[0].startswith("finish:")]
             if other and self.rng.random() < 0.85:
@@ -905,7 +913,8 @@ class VirtualCluster:
                 ch = self.choices()
                 if not ch:
                     # everything left is blocked on a lock nobody will release: real filelock would time out
-                    blocked = [a for a in self.actors if not a.done and not a.killed and a.waiting_lock]
+                    blocked = [a for a in self.actors if not a.done and not a.killed and a.waiting_lock
+                               and not (a.stack[0].kind == "node" and self.hpc.get(a.stack[0].batch, {}).get("state") == "SUSPENDED")]
                     if blocked:
                         a = blocked[0]
                         self.pending_lock_timeout.add(a.proc.pid)
